@@ -156,59 +156,140 @@ func faultStage(env *vh.Env, rep *vh.Report, rng *vh.Rng) {
 	if env.Thorough {
 		n = 80
 	}
+	root := os.Geteuid() == 0
 	for it := 0; it < n; it++ {
 		home := newHome()
 		logs := filepath.Join(home, "logs")
 		day := int64(3000 + rng.Intn(30000))
 		t := baseTime + day*dayMs + 43200000
 		setClock(t)
-		l := logfile.NewFileLogger(logfile.WithHomePath(home), logfile.WithOnameLogID("flt", "whatap"), logfile.WithLevel(0))
-		created++
-		waitParked()
 		name := func(d int64) string { return "whatap-flt-" + dayStr(d) + ".log" }
+		// the second kind of fault: removing an expired file fails (the logs directory is read-only
+		// during one cycle on the same day); without effect for the super-user, then not run
+		removeFault := it%4 == 3 && !root && os.Getenv("C17_REMOVE_FAULT") == "1" // not rehearsed as a non-super-user yet: opt-in
+		expired := []string{name(day - 30), name(day - 9)}
+		if removeFault {
+			for _, x := range expired {
+				os.WriteFile(filepath.Join(logs, x), []byte("old\n"), 0o644)
+			}
+		}
+		var l *logfile.FileLogger
 		steps := []string{fmt.Sprintf("logger created on %s", dayStr(day))}
-		l.Errorf("%s", "before the fault #1#")
-		// the fault: a directory has the name of the next day's file
+		replay := func() map[string]interface{} {
+			return map[string]interface{}{"stage": "fault", "day": day, "remove_fault": removeFault, "steps": append([]string{}, steps...)}
+		}
+		// call: every call into the logger under the watchdog; a call that does not return ends the stage
+		hungAt := ""
+		call := func(what string, f func()) bool {
+			if hungAt != "" {
+				return false
+			}
+			g := guarded(f)
+			if g.Timeout {
+				hungAt = what
+				wd := watchdog()
+				hangs++
+				lostRuns++
+				key := "FileLogger.process:hang-after-fault"
+				if !strings.HasPrefix(what, "cycle") {
+					key = "FileLogger.call:hang-after-fault"
+				}
+				rep.Fail("property", key, fmt.Sprintf("%s did not return within %v; steps so far: %s — after a fault inside the periodic cycle the cycle must complete and later cycles must rotate and prune again, and log calls must still append",
+					what, wd, strings.Join(steps, "; ")), replay())
+				return false
+			}
+			if !g.OK() {
+				rep.Fail("property", "FileLogger.process:panic", what+" panicked: "+g.Panic, replay())
+			}
+			return true
+		}
+		call("NewFileLogger", func() {
+			l = logfile.NewFileLogger(logfile.WithHomePath(home), logfile.WithOnameLogID("flt", "whatap"), logfile.WithLevel(0))
+		})
+		created++
+		if l == nil {
+			break
+		}
+		waitParked()
+		call("the log call before the fault", func() { l.Errorf("%s", "before the fault #1#") })
 		faultDays := 1 + rng.Intn(2) // the fault lasts over one or two midnights
 		cyclesInFault := 1 + rng.Intn(3)
-		os.Mkdir(filepath.Join(logs, name(day+1)), 0o755)
-		if faultDays == 2 {
-			os.Mkdir(filepath.Join(logs, name(day+2)), 0o755)
-		}
-		t = baseTime + (day+int64(faultDays))*dayMs + int64(rng.Intn(3600000))
-		for k := 0; k < cyclesInFault; k++ {
-			setClock(t)
-			g := vh.Guard(func() { l.ProcessOnceForVerif() })
-			if !g.OK() {
-				rep.Fail("property", "FileLogger.process:panic", "the cycle panicked while the new day's file could not be opened: "+g.Panic,
-					map[string]interface{}{"stage": "fault", "steps": steps})
-			}
-			l.Errorf("during the fault %d", k)
+		if removeFault {
+			faultDays = 0
 			t += 61000
-			steps = append(steps, fmt.Sprintf("cycle at %s with a directory named %s", dayStr(day+int64(faultDays)), name(day+int64(faultDays))))
+			for k := 0; k < cyclesInFault; k++ {
+				os.Chmod(logs, 0o555)
+				setClock(t)
+				steps = append(steps, fmt.Sprintf("cycle at +%d s on the same day while <home>/logs is read-only (removing %v fails)", (t-baseTime-day*dayMs-43200000)/1000, expired))
+				call(fmt.Sprintf("cycle %d with the failing remove", k), func() { l.ProcessOnceForVerif() })
+				os.Chmod(logs, 0o755)
+				call(fmt.Sprintf("the log call after cycle %d with the failing remove", k), func() { l.Errorf("during the fault %d", k) })
+				t += 61000
+			}
+		} else {
+			// the fault: a directory has the name of the next day's file
+			os.Mkdir(filepath.Join(logs, name(day+1)), 0o755)
+			if faultDays == 2 {
+				os.Mkdir(filepath.Join(logs, name(day+2)), 0o755)
+			}
+			t = baseTime + (day+int64(faultDays))*dayMs + int64(rng.Intn(3600000))
+			for k := 0; k < cyclesInFault; k++ {
+				setClock(t)
+				steps = append(steps, fmt.Sprintf("cycle at %s with a directory named %s", dayStr(day+int64(faultDays)), name(day+int64(faultDays))))
+				call(fmt.Sprintf("cycle %d with the failing open", k), func() { l.ProcessOnceForVerif() })
+				call(fmt.Sprintf("the log call after cycle %d with the failing open", k), func() { l.Errorf("during the fault %d", k) })
+				t += 61000
+			}
 		}
 		// heal
+		os.Chmod(logs, 0o755)
 		os.Remove(filepath.Join(logs, name(day+1)))
 		os.Remove(filepath.Join(logs, name(day+2)))
 		setClock(t)
-		l.ProcessOnceForVerif()
-		steps = append(steps, "directory removed; cycle 61 s later")
+		steps = append(steps, "fault removed; cycle 61 s later")
+		call("cycle after the fault was removed", func() { l.ProcessOnceForVerif() })
 		tok := fmt.Sprintf("after the fault healed #77%05d#", it)
-		l.Errorf("%s", tok)
+		call("the log call after the fault was removed", func() { l.Errorf("%s", tok) })
+		if hungAt != "" {
+			// established once: the logger's lock is taken for good; no further iteration (each would
+			// block for the whole watchdog again)
+			rep.Case(fmt.Sprintf("fault/%d/%d/%d/%d", day, faultDays, cyclesInFault, it), true)
+			rep.Count("fault:hang-established")
+			os.RemoveAll(home)
+			return
+		}
 		want := name(day + int64(faultDays))
 		got := curName(l)
 		b, _ := os.ReadFile(filepath.Join(logs, want))
 		inNew := strings.Count(string(b), tok)
 		rep.Case(fmt.Sprintf("fault/%d/%d/%d/%d", day, faultDays, cyclesInFault, it), true)
-		rep.Count("fault:rotation-cycles-with-unopenable-file")
-		if got != want || inNew != 1 {
-			rep.Fail("property", "FileLogger.process:rotation-after-open-fault",
-				fmt.Sprintf("the new day's file could not be opened at %d cycle(s) (a directory had its name); after the directory was removed and a cycle ran on %s, the open file is %q (expected %q) and the next line is %d time(s) in %q",
-					cyclesInFault, dayStr(day+int64(faultDays)), got, want, inNew, want),
-				map[string]interface{}{"stage": "fault", "day": day, "fault_days": faultDays, "cycles_in_fault": cyclesInFault, "steps": steps})
+		if removeFault {
+			rep.Count("fault:retention-cycles-with-failing-remove")
+			var left []string
+			for _, x := range expired {
+				if _, err := os.Stat(filepath.Join(logs, x)); err == nil {
+					left = append(left, x)
+				}
+			}
+			if len(left) > 0 || got != want || inNew != 1 {
+				rep.Fail("property", "FileLogger.process:retention-after-remove-fault",
+					fmt.Sprintf("removing the expired files failed at %d cycle(s) (read-only directory); after the directory was writable again and a cycle ran 61 s later, still present: %v; open file %q (expected %q); the next line is %d time(s) in it",
+						cyclesInFault, left, got, want, inNew), replay())
+			}
+		} else {
+			rep.Count("fault:rotation-cycles-with-unopenable-file")
+			if got != want || inNew != 1 {
+				rep.Fail("property", "FileLogger.process:rotation-after-open-fault",
+					fmt.Sprintf("the new day's file could not be opened at %d cycle(s) (a directory had its name); after the directory was removed and a cycle ran on %s, the open file is %q (expected %q) and the next line is %d time(s) in %q",
+						cyclesInFault, dayStr(day+int64(faultDays)), got, want, inNew, want),
+					map[string]interface{}{"stage": "fault", "day": day, "fault_days": faultDays, "cycles_in_fault": cyclesInFault, "steps": steps})
+			}
 		}
-		l.CloseForVerif()
+		guarded(func() { l.CloseForVerif() })
 		os.RemoveAll(home)
+	}
+	if root {
+		rep.Count("fault:failing-remove-not-run(super-user)")
 	}
 	_ = time.Now
 }
